@@ -1,19 +1,37 @@
 #!/bin/bash
-# usage: confirm_seed.sh <worktree> <crate (mla|mlar)>  -- confirms a seeded change in its scratch worktree:
-#  demo fails with the patch, existing suite passes with the patch, demo passes without it. Writes <worktree>/seed_out/confirm.log
-W=$1; CR=${2:-mla}
+# usage: confirm_seed.sh <worktree> <crate dir (mla|mlar|curve25519-parser|bindings/C)> [package name]
+#  confirms a seeded change in its scratch worktree: demo fails with the patch, existing suite passes with the patch,
+#  demo passes without it. Writes <worktree>/seed_out/confirm.log
+#  For bindings/C the demo is an in-crate test module (src/seed_demo.rs + one `#[cfg(test)] mod seed_demo;` line in lib.rs,
+#  a cdylib/staticlib crate has no integration-test surface).
+W=$1; CR=${2:-mla}; PKG=${3:-$CR}
 cd $W || exit 2
 L=$W/seed_out/confirm.log; : > $L
 git checkout -- . 2>/dev/null
+rm -f $CR/tests/seed_demo.rs $CR/src/seed_demo.rs
+INCRATE=0; [ "$CR" = "bindings/C" ] && INCRATE=1
+place_demo() {
+  if [ $INCRATE = 1 ]; then cp seed_out/seed_demo.rs $CR/src/seed_demo.rs; echo '#[cfg(test)] mod seed_demo;' >> $CR/src/lib.rs
+  else mkdir -p $CR/tests; cp seed_out/seed_demo.rs $CR/tests/seed_demo.rs; fi
+}
+run_demo() {
+  if [ $INCRATE = 1 ]; then cargo test -p $PKG --offline seed_demo >> $L 2>&1
+  else cargo test -p $PKG --offline --test seed_demo >> $L 2>&1; fi
+}
+remove_demo() {
+  if [ $INCRATE = 1 ]; then rm -f $CR/src/seed_demo.rs; sed -i '$ d' $CR/src/lib.rs; else rm -f $CR/tests/seed_demo.rs; fi
+}
 git apply seed_out/patch.diff || { echo "APPLY-FAILED" >> $L; exit 2; }
-cp seed_out/seed_demo.rs $CR/tests/seed_demo.rs
+place_demo
 echo "== demo with patch" >> $L
-cargo test -p $CR --offline --test seed_demo >> $L 2>&1; echo "demo_with_patch_rc=$?" >> $L
-mv $CR/tests/seed_demo.rs /tmp/seed_demo_$$.rs
+run_demo; echo "demo_with_patch_rc=$?" >> $L
+remove_demo
 echo "== suite with patch" >> $L
 cargo test --workspace --no-fail-fast --offline 2>&1 | grep -E "^test result|FAILED|failed" >> $L; echo "suite_done" >> $L
 git checkout -- .
-mv /tmp/seed_demo_$$.rs $CR/tests/seed_demo.rs
+place_demo
 echo "== demo without patch" >> $L
-cargo test -p $CR --offline --test seed_demo >> $L 2>&1; echo "demo_without_patch_rc=$?" >> $L
+run_demo; echo "demo_without_patch_rc=$?" >> $L
+remove_demo
+git checkout -- .
 grep -E "demo_with_patch_rc|demo_without_patch_rc|^test result: FAILED|suite_done" $L
